@@ -208,7 +208,7 @@ def shrink(ctx, layers, rng, why):
 
 
 def run(ctx):
-    n = 400 if ctx.tier == "quick" else 6000
+    n = ctx.n(400, 6000)
     rng = core.Rng(ctx.seed)
     corpus = load_corpus()
     cases = corpus + [gen_case(rng.fork("case%d" % i)) for i in range(n)]
